@@ -39,7 +39,9 @@ Before == {"none", "simple", "if", "loop"}
 After  == {"none", "simple"}
 StepsOf(C) == [ctx : C, t : Terms, p : Before, post : After]
 FnSteps  == StepsOf({"fn"})
-CtxSteps == StepsOf(Ctx)
+\* the depth-2 shards of the thorough tier use a slimmer alphabet below the function level (the product would have 1.6 million paths per kind)
+Slim == "slim" \in DOMAIN Data /\ Data.slim
+CtxSteps == IF Slim THEN [ctx : Ctx, t : Terms, p : {"none", "if"}, post : {"none"}] ELSE StepsOf(Ctx)
 \* break / continue need an enclosing loop BODY (a loop's else clause belongs to the next loop out)
 InLoop(path, j) == \E i \in 2..j : path[i].ctx \in LoopBodies
 Valid(path) == \A j \in 1..Len(path) : path[j].t \in {"brk", "cnt"} => InLoop(path, j)
